@@ -7,6 +7,8 @@
      resolve ix shp p         positions+shape selected by a path p of nested VIEW (basic) slices, innermost last
      win_ok h r ix            ix are distinct valid positions of buffer r
      fits h x shp n tcx       x is a scalar or an array of exactly shape shp (n entries), complex only onto complex
+     promotes h x shp n tcx   x is a COMPLEX scalar or array of exactly shape shp (non 0-d, n entries) and the target is
+                              not complex (tcx = false): numpy refuses the in-place addition
      vdata h x n              the data of x (a scalar is repeated n times)
      wrote h h' r tix d       in h', entries tix of buffer r hold d; all other entries of r, its size and dtype, and
                               every other buffer that existed in h are unchanged
@@ -122,7 +124,8 @@ Theorem C18_add_first_is_deepcopy : forall i w r' ix' shp', r_se (root w i) = VN
 Proof. exact add_se_root_first_array. Qed.
 Print Assumptions C18_add_first_is_deepcopy.
 
-(* later contributions: in place, same object *)
+(* later contributions, when the in-place addition is admissible (premise `fits`: a complex contribution only onto a
+   complex array): in place, same object *)
 Theorem C18_add_accumulates_in_place : forall i w rs ixs shp ds,
   i < length (roots w) -> r_se (root w i) = VWin rs ixs shp ->
   fits (heap w) ds shp (length ixs) (bcplx (getbuf (heap w) rs)) ->
@@ -130,6 +133,38 @@ Theorem C18_add_accumulates_in_place : forall i w rs ixs shp ds,
     (set_heap w (hwrite (heap w) rs ixs (map2 cadd (rd (heap w) rs ixs) (vdata (heap w) ds (length ixs)))), Ok tt).
 Proof. exact add_se_root_accumulate. Qed.
 Print Assumptions C18_add_accumulates_in_place.
+
+(* later contributions the held array cannot take in place (complex onto non-complex; repaired defect F37): the sum
+   is built OUT OF PLACE and the sensitivity field is re-bound to it.  The result lives in a fresh buffer (index
+   length (heap w): referenced by nothing that existed, neither ds nor the old sensitivity nor any variable or state),
+   is complex, has the shape of the old array and holds old + ds; the heap is only extended, so the old buffer, the
+   buffer of ds and every other array keep their contents; state, keep_alloc and all other signals are unchanged.
+   The no-alias invariant and the isolation theorems of section 5 are proved for the model containing this branch,
+   i.e. they hold for ALL operation sequences including promoting additions. *)
+Theorem C18_add_promotes_out_of_place : forall i w rs ixs shp ds,
+  i < length (roots w) -> r_se (root w i) = VWin rs ixs shp ->
+  promotes (heap w) ds shp (length ixs) (bcplx (getbuf (heap w) rs)) ->
+  add_se i [] ds w =
+    (set_roots (set_heap w (heap w ++ [{| bdata := map2 cadd (rd (heap w) rs ixs) (vdata (heap w) ds (length ixs));
+                                          bcplx := true |}]))
+       (upd (roots w) i {| r_st := r_st (root w i);
+                           r_se := VWin (length (heap w)) (whole (length ixs)) shp;
+                           r_keep := r_keep (root w i) |}), Ok tt).
+Proof. exact add_se_root_promote. Qed.
+Print Assumptions C18_add_promotes_out_of_place.
+
+Theorem C18_add_promoted_value : forall i w rs ixs shp ds w',
+  i < length (roots w) -> r_se (root w i) = VWin rs ixs shp -> rs < length (heap w) ->
+  promotes (heap w) ds shp (length ixs) (bcplx (getbuf (heap w) rs)) ->
+  add_se i [] ds w = (w', Ok tt) ->
+  exists rn, r_se (root w' i) = VWin rn (whole (length ixs)) shp /\ rn = length (heap w) /\
+    bcplx (getbuf (heap w') rn) = true /\
+    rd (heap w') rn (whole (length ixs)) = map2 cadd (rd (heap w) rs ixs) (vdata (heap w) ds (length ixs)) /\
+    same_old (heap w) (heap w') /\ vars w' = vars w /\
+    r_st (root w' i) = r_st (root w i) /\ r_keep (root w' i) = r_keep (root w i) /\
+    (forall j, j <> i -> root w' j = root w j).
+Proof. exact add_se_root_promote_reads. Qed.
+Print Assumptions C18_add_promoted_value.
 
 Theorem C18_add_none_is_noop : forall i p w, add_se i p VNone w = (w, Ok tt).
 Proof. exact add_se_none. Qed.
@@ -326,4 +361,30 @@ Proof.
     destruct (reset_slice_exists 0%nat s_rows [] None w1 4%nat (whole 12) [3; 4] (whole 12) [3; 4] si Hse Hr H3 H4 H5 H6)
       as (w' & E & _ & _ & W).
     exists w'. split; [exact E|]. destruct W as (_ & W2 & W3 & _). split; [exact W2|exact W3].
+Qed.
+
+(* F37: a real (integer) sensitivity receives a complex array, then a complex python scalar; a second signal that got
+   the same real object first is not affected, and neither are the contributed objects *)
+Definition ex_promote : list op :=
+  [ONewArr 0 (map zc [1; 2; 3]) false [3];                    (* v0: state / real contribution *)
+   ONewNone 1;
+   ONewSig 0 1; ONewSig 0 1;
+   ONewArr 2 [(0, 1); (4, -1); (0, 2)] true [3];              (* v2: complex contribution *)
+   ONewScal 3 (0, 5) true false;                              (* v3 = 5j *)
+   OAddSens 0 [] 0; OAddSens 1 [] 0;                          (* both signals: first contribution v0 (deep copies) *)
+   OAddSens 0 [] 2;                                           (* promoted out of place *)
+   OAddSens 0 [] 3;                                           (* now complex: in place *)
+   OMut 2 [(9, 9); (9, 9); (9, 9)]].
+Example C18_ex_promotes :
+  let w := run ex_promote (world0 4) in
+  sens_abs w 0 = AArr [(1, 6); (6, 4); (3, 7)] [3] true /\
+  sens_abs w 1 = AArr (map zc [1; 2; 3]) [3] false /\
+  Inv w /\
+  (let w9 := run (firstn 8 ex_promote) (world0 4) in
+   promotes (heap w9) (nth 2 (vars w9) VNone) [3] 3 (bcplx (getbuf (heap w9) 2)) /\
+   r_se (root w9 0) = VWin 2 (whole 3) [3]).
+Proof.
+  intros w. split; [vm_compute; reflexivity|]. split; [vm_compute; reflexivity|]. split.
+  - apply (no_alias_run ex_promote (world0 4) (Inv_world0 4)). vm_compute. repeat split.
+  - vm_compute. repeat split; try reflexivity; discriminate.
 Qed.
